@@ -88,6 +88,9 @@ pub fn negamax(
 
     let mut previous_best_move: Option<Move> = None;
 
+    #[cfg(jgilchrist_tcheran_verif)]
+    crate::engine::util::verif::table_probe(ctx.tt, &game.zobrist);
+
     if let Some(tt_entry) = ctx.tt.get(&game.zobrist) {
         if !is_root && !is_pv && tt_entry.depth >= depth {
             let tt_score = tt_entry.eval.with_mate_distance_from_root(plies);
@@ -142,6 +145,9 @@ pub fn negamax(
                         age: ctx.tt.generation,
                         depth,
                     };
+
+                    #[cfg(jgilchrist_tcheran_verif)]
+                    crate::engine::util::verif::table_insert(ctx.tt, &game.zobrist, &tt_data);
 
                     ctx.tt.insert(&game.zobrist, tt_data);
 
@@ -337,6 +343,9 @@ pub fn negamax(
         age: ctx.tt.generation,
         depth,
     };
+
+    #[cfg(jgilchrist_tcheran_verif)]
+    crate::engine::util::verif::table_insert(ctx.tt, &game.zobrist, &tt_data);
 
     ctx.tt.insert(&game.zobrist, tt_data);
 
